@@ -42,8 +42,8 @@ ASSUMPTIONS = [
     "formulas are sampled: Bool and BV(1..2) terms of depth <= 2 over <= 4 symbols",
 ]
 TIERS = {
-    "quick": {"runs": 24000, "budget_s": 50, "max_ops": 40},
-    "thorough": {"runs": 600000, "budget_s": 900, "max_ops": 60},
+    "quick": {"runs": 60000, "budget_s": 60, "max_ops": 40},
+    "thorough": {"runs": 1500000, "budget_s": 900, "max_ops": 60},
 }
 
 SOLVER_ONLY = ("is_sat", "is_valid", "is_unsat", "solve_assuming", "read")
